@@ -628,6 +628,14 @@ pub fn gen_c10(sh: &mut Shards, o: &Opts) -> serde_json::Value {
             emit_tf_probe(sh, "tfrt", t, "rt", &px, w, h, &idx, whole);
             samples += 3 * idx.len() as u64;
         }
+        // beyond UHD-1: one 4096x3072 frame (12.6 Mpx, a 151 MB buffer) for the two HDR curves and two more curves per run
+        if !o.mini && (o.thorough || t == 16 || t == 18 || (ti + o.seed as usize) % 6 == 0) {
+            let (px, w, h, mut idx) = big_frame_wh(o, &mut rng, 4096, 3072);
+            let whole = apply(t, "lin", &px, w, h).and_then(|m| apply(t, "gam", &m, w, h));
+            crate::util::screen_idx(&mut idx, &whole, &px, &|c, cw, ch| apply(t, "lin", c, cw, ch).and_then(|m| apply(t, "gam", &m, cw, ch)));
+            emit_tf_probe(sh, "tfrt", t, "rt", &px, w, h, &idx, whole);
+            samples += 3 * idx.len() as u64;
+        }
         // echo images: each pixel followed by the library's own result for it and by repeats (a shortcut that compares a
         // sample with the previous OUTPUT, or run-length handling, shows as a wrong round trip)
         let src: Vec<[f32; 3]> = (0..24).map(|i| [0.03 + 0.04 * i as f32, 0.97 - 0.035 * i as f32, 0.5 + 0.02 * (i as f32 - 12.0)]).collect();
